@@ -31,9 +31,9 @@ LOOPS = {
 #                    from that Vec
 #   caller-iterator  as the iterator-driven loops, except that the iterator's type is a generic parameter
 
-# recursive functions: name -> (index of the measured parameter (1-based MIR local), reason)
+# recursive functions: name -> (name of the measured parameter, reason)
 RECURSION = {
-    "proof::multi_proof::verify_range": (1, "start_depth strictly increases on every recursive call and a guard returns MalformedProof once it exceeds the path length (<= 256)"),
+    "proof::multi_proof::verify_range": ("start_depth", "start_depth strictly increases on every recursive call and a guard returns MalformedProof once it exceeds the path length (<= 256)"),
 }
 
 INFINITE = ("core::ops::range::RangeFrom", "core::iter::sources::repeat::Repeat", "core::iter::sources::repeat_with::RepeatWith", "core::iter::adapters::cycle::Cycle", "core::iter::sources::from_fn::FromFn", "core::iter::sources::successors::Successors", "core::iter::sources::repeat_n::")
@@ -495,7 +495,15 @@ def t2_recursion(facts, rep, seen):
             continue
         fn = comp[0]
         body = facts.bodies[fn]
-        (param, reason) = RECURSION[names[0]]
+        (pname, reason) = RECURSION[names[0]]
+        # the measured parameter is found by its name (its position shifts when the function becomes a method)
+        param = None
+        for li in range(1, body.argc + 1):
+            if li < len(body.j.get("locals", [])) and body.j["locals"][li].get("n") == pname:
+                param = li
+        if param is None:
+            rep.violation("T2", names[0], "measure-parameter", "the recursive function no longer has a parameter `%s`, the measure its termination argument rests on" % pname, site=body.span)
+            continue
         calls = [b for b in range(body.n) if body.term(b)["k"] == "call" and body.term(b).get("callee") == fn]
         guards = []
         for sb in range(body.n):
